@@ -227,6 +227,18 @@ def gen_api_case(rng, ctx, pool_of_keys, forced=None):
                 continue
         allocs.append([key, ipt])
         meta[ipt] = (key, pc, what)
+    # a deployment pod of a named pool AND the pool's reserve key (pool__<name>_) hold IPs at the same time: the entry of the
+    # one must never release the IP of the other
+    for key, pc, what, fields in list(picks):
+        if what == "pod" and pc.get("pool") and "_" not in pc["pool"] and rng.random() < 0.5:
+            pk_ = "pool__%s_" % pc["pool"]
+            if pk_ not in seen:
+                seen.add(pk_)
+                ipt = "10.0.3.%d" % (200 + len(allocs) % 50)
+                if ipt not in meta:
+                    allocs.append([pk_, ipt])
+                    meta[ipt] = (pk_, pc, "pool-prefix")
+                    ctx.dist("api:pool-pod-and-its-pool-reserve")
     pods = []
     for key, pc, what, fields in picks:
         if what == "pod" and rng.random() < 0.15:
@@ -266,6 +278,13 @@ def gen_api_case(rng, ctx, pool_of_keys, forced=None):
         else:
             posts.append({"list": 0, "idx": i})
             posts.append({"list": 0, "idx": i})                  # second post: already released
+    # cross posts: every entry whose key starts with a pool prefix against the IP of that pool's reserve, and back
+    keys_by_idx = [k_ for k_, _ in sorted(allocs, key=lambda a: a[1])]
+    for i, ki in enumerate(keys_by_idx):
+        for j, kj in enumerate(keys_by_idx):
+            if i != j and kj.startswith("pool__") and kj.endswith("_") and kj.count("_") == 3 and ki.startswith(kj) and rng.random() < 0.7:
+                posts.insert(0, {"list": 0, "idx": i, "ip": sorted_ips[j]})      # the pod's entry with the reserve's IP
+                posts.insert(0, {"list": 0, "idx": j, "ip": sorted_ips[i]})      # the reserve's entry with the pod's IP
     ctx.dist("api:allocs-%d" % len(allocs))
     batches = []
     if rng.random() < 0.35 and len(allocs) >= 2:
